@@ -49,9 +49,9 @@ static ssize_t compress(zckCtx *zck, zckComp *comp, const char *src,
     ALLOCD_INT(zck, comp);
 
     *dst = zmalloc(src_size);
-    if (!dst) {
+    if (!*dst) {
         zck_log(ZCK_LOG_ERROR, "OOM in %s", __func__);
-        return 0;
+        return -1;
     }
 
     memcpy(*dst, src, src_size);
